@@ -162,16 +162,13 @@ Theorem tsp_reward_is_objective i acts :
   (forall a b, tsp_d i a b = tsp_d i b a) -> tsp_reward i acts = tsp_objective i acts.
 Proof. intros S. unfold tsp_reward, tsp_objective. rewrite roll_sum_flip_sym by exact S. reflexivity. Qed.
 
-(* on a tour of at least two cities _get_reward is computable per row *)
-Lemma tsp_feasible_rewardok i acts : (2 <= tsp_n i)%nat -> tsp_feasible i acts -> tsp_rewardok i acts = true.
-Proof.
-  intros Hn Hf. pose proof (proj1 (visits_each_once_nodup _ _) Hf) as (Hl & _). destruct Hf as [_ Hr].
-  unfold tsp_rewardok. apply andb_true_intro. split; [apply Nat.ltb_lt; lia|].
-  apply forallb_forall. intros a Ha. apply Nat.ltb_lt. apply Hr. exact Ha.
-Qed.
-(* with a single city it is not (recorded defect of the degenerate case) *)
-Example tsp_single_city_reward_not_per_row :
-  let i := {| tdist := [[0]] |} in tsp_wfb i = true /\ tsp_feasibleb i [0%nat] = true /\ tsp_rewardok i [0%nat] = false.
+(* on a tour (of any size, a single city included) the gather of _get_reward stays inside locs *)
+Lemma tsp_feasible_rewardok i acts : tsp_feasible i acts -> tsp_rewardok i acts = true.
+Proof. intros [_ Hr]. unfold tsp_rewardok. apply forallb_forall. intros a Ha. apply Nat.ltb_lt. apply Hr. exact Ha. Qed.
+(* the single-city tour (before the fix aa30e65 its reward was not computed per row; known_findings.json: fixed) *)
+Example tsp_single_city_reward :
+  let i := {| tdist := [[0]] |} in
+  tsp_wfb i = true /\ tsp_feasibleb i [0%nat] = true /\ tsp_rewardok i [0%nat] = true /\ tsp_reward i [0%nat] = 0.
 Proof. vm_compute. auto. Qed.
 
 (* ================================================================ C04 *)
@@ -258,52 +255,49 @@ Proof.
 Qed.
 
 (* ================================================================ C06 *)
-Theorem tsp_checker_complete i acts : tsp_feasible i acts -> tsp_checker acts = true.
+Lemma tsp_checker_iff i acts : tsp_checker i acts = true <-> tsp_feasible i acts.
 Proof.
-  intros Hf. unfold tsp_checker. apply sorted_is_arange_iff.
-  pose proof (proj1 (visits_each_once_nodup _ _) Hf) as (Hl & _). rewrite Hl. exact Hf.
+  unfold tsp_checker, tsp_feasible. rewrite andb_true_iff, Nat.eqb_eq, sorted_is_arange_iff. split.
+  - intros [Hl Hv]. rewrite Hl in Hv. exact Hv.
+  - intros Hv. pose proof (proj1 (visits_each_once_nodup _ _) Hv) as (Hl & _). split; [exact Hl | rewrite Hl; exact Hv].
 Qed.
 
-(* what acceptance means for ANY action list: a permutation of 0..len-1 *)
-Theorem tsp_checker_sound_general acts : tsp_checker acts = true -> visits_each_once (length acts) acts.
-Proof. apply sorted_is_arange_iff. Qed.
+Theorem tsp_checker_complete i acts : tsp_feasible i acts -> tsp_checker i acts = true.
+Proof. apply tsp_checker_iff. Qed.
 
-(* hence for action lists of the instance's length: accepted => every city exactly once *)
-Theorem tsp_checker_sound i acts : length acts = tsp_n i -> tsp_checker acts = true -> tsp_feasible i acts.
-Proof. intros Hl Hc. apply tsp_checker_sound_general in Hc. rewrite Hl in Hc. exact Hc. Qed.
+(* accepted => every city exactly once; no hypothesis on the length of the action list: the checker establishes it *)
+Theorem tsp_checker_sound i acts : tsp_checker i acts = true -> tsp_feasible i acts.
+Proof. apply tsp_checker_iff. Qed.
 
-Corollary tsp_checker_rejects_missing i acts j :
-  length acts = tsp_n i -> (j < tsp_n i)%nat -> ~ In j acts -> tsp_checker acts = false.
+Corollary tsp_checker_rejects_wrong_length i acts : length acts <> tsp_n i -> tsp_checker i acts = false.
 Proof.
-  intros Hl Hj Hn. apply not_true_iff_false. intros Hc. destruct (tsp_checker_sound i acts Hl Hc) as [Ho _].
+  intros Hl. apply not_true_iff_false. intros Hc. apply tsp_checker_sound, visits_each_once_nodup in Hc as (H & _). contradiction.
+Qed.
+
+Corollary tsp_checker_rejects_missing i acts j : (j < tsp_n i)%nat -> ~ In j acts -> tsp_checker i acts = false.
+Proof.
+  intros Hj Hn. apply not_true_iff_false. intros Hc. destruct (tsp_checker_sound i acts Hc) as [Ho _].
   specialize (Ho j Hj). apply occ_not_In in Hn. lia.
 Qed.
 
-Corollary tsp_checker_rejects_duplicate acts j : (2 <= occ j acts)%nat -> tsp_checker acts = false.
+Corollary tsp_checker_rejects_duplicate i acts j : (2 <= occ j acts)%nat -> tsp_checker i acts = false.
 Proof.
-  intros Hd. apply not_true_iff_false. intros Hc. apply tsp_checker_sound_general in Hc.
+  intros Hd. apply not_true_iff_false. intros Hc. apply tsp_checker_sound in Hc.
   apply visits_each_once_nodup in Hc as (_ & Hnd & _). apply NoDup_occ_le1 with (x := j) in Hnd. lia.
 Qed.
 
-Corollary tsp_checker_rejects_out_of_range i acts a :
-  length acts = tsp_n i -> In a acts -> (tsp_n i <= a)%nat -> tsp_checker acts = false.
+Corollary tsp_checker_rejects_out_of_range i acts a : In a acts -> (tsp_n i <= a)%nat -> tsp_checker i acts = false.
 Proof.
-  intros Hl Ha Hge. apply not_true_iff_false. intros Hc. destruct (tsp_checker_sound i acts Hl Hc) as [_ Hr].
+  intros Ha Hge. apply not_true_iff_false. intros Hc. destruct (tsp_checker_sound i acts Hc) as [_ Hr].
   specialize (Hr a Ha). lia.
 Qed.
 
-(* without the length hypothesis soundness FAILS: the checker compares with arange(len(actions)), never with the
-   number of cities, so a tour that simply omits the highest-numbered cities is accepted *)
-Theorem tsp_checker_truncated_refuted :
-  exists (i : tsp_inst) (acts : list nat),
-    tsp_wfb i = true /\ tsp_checker acts = true /\ ~ tsp_feasible i acts /\ ~ In 2%nat acts /\ (2 < tsp_n i)%nat.
-Proof.
-  exists {| tdist := [[0; 3; 4]; [3; 0; 5]; [4; 5; 0]] |}, [1; 0]%nat.
-  split; [vm_compute; reflexivity|]. split; [vm_compute; reflexivity|]. split; [|split].
-  - intros Hf. apply tsp_feasibleb_ok in Hf. vm_compute in Hf. discriminate.
-  - intros [H|[H|[]]]; discriminate.
-  - vm_compute. lia.
-Qed.
+(* the witness of the repaired defect (fix 5d5f57a; known_findings.json: fixed): 3 cities, actions [1; 0] -- a
+   permutation of 0..len-1 that never visits city 2 -- used to be accepted and is now rejected *)
+Example tsp_checker_truncated_now_rejected :
+  let i := {| tdist := [[0; 3; 4]; [3; 0; 5]; [4; 5; 0]] |} in
+  tsp_wfb i = true /\ sorted_is_arange [1; 0]%nat = true /\ tsp_checker i [1; 0]%nat = false /\ tsp_checker i [1; 0; 2]%nat = true.
+Proof. vm_compute. auto. Qed.
 
 (* unfolded forms used by the Properties files *)
 Lemma tsp_mask_complete_unfolded :
@@ -316,7 +310,7 @@ Proof. intros i acts Hwf H1 H2. apply tsp_mask_complete; [exact Hwf | split; ass
 Lemma tsp_checker_complete_unfolded :
   forall (i : tsp_inst) (acts : list nat),
     (forall j, (j < tsp_n i)%nat -> occ j acts = 1%nat) -> (forall a, In a acts -> (a < tsp_n i)%nat) ->
-    tsp_checker acts = true.
+    tsp_checker i acts = true.
 Proof. intros i acts H1 H2. apply (tsp_checker_complete i). split; assumption. Qed.
 
 (* ================================================================ C02, batch corollary: the decoding loop *)
